@@ -14,6 +14,7 @@ import Dirk.Model.Lister
 import Dirk.Model.Transport
 import Dirk.Model.Handler
 import Dirk.Spec.Listing
+import Dirk.Spec.Lifecycle
 
 namespace Driver
 open Dirk
@@ -34,6 +35,7 @@ structure DState where
   dbB : Option Db := none          -- the re-imported copy after `roundtrip`
   lastTrace : List LTok := []
   cluster : Dkg.Cluster := { insts := [], peers := [], timeout := 0 }
+  jlife : Spec.Life.JState := {}
   minsts : List (Nat × Inst) := []     -- per-instance signer models of a cluster (C14)
   linBase : Option Inst := none    -- instance state at `lin-begin`
   linOps : List (Nat × Nat × List String × String) := []   -- (t_inv, t_res, observed states, op line)
@@ -379,6 +381,17 @@ def dstepCore (st : DState) (line : String) : DState × Option String :=
       let (s', p) := signAtt base "client1" { name := acct } d {} false
       ({ st with minsts := (i, s') :: st.minsts.filter (·.1 != i) }, some (posStr p))
     | _, _, _ => bad st line
+  -- the same through the batch endpoint (a batch of one)
+  | ["iatts", i, acct, d] =>
+    match i.toNat?, unhexStr acct, parseAtt (d.splitOn ",") with
+    | some i, some acct, some d =>
+      let wa := match walletAndAccount acct with
+        | some p => p
+        | none => ("", "")
+      let base := clusterInst st.minsts i wa.1 wa.2
+      let r := signAtts base "client1" [({ name := acct }, d)] {}
+      ({ st with minsts := (i, r.1) :: st.minsts.filter (·.1 != i) }, some (match r.2 with | [p] => posStr p | _ => "?"))
+    | _, _, _ => bad st line
   | ["iprop", i, acct, d] =>
     match i.toNat?, unhexStr acct, parseProp (d.splitOn ",") with
     | some i, some acct, some d =>
@@ -390,6 +403,30 @@ def dstepCore (st : DState) (line : String) : DState × Option String :=
       ({ st with minsts := (i, s') :: st.minsts.filter (·.1 != i) }, some (posStr p))
     | _, _, _ => bad st line
   -- judge C14: with threshold t, two conflicting duties collected c1 and c2 partial signatures
+  -- judge C17 on the implementation's replies alone (Spec.Life): jlife-reset <timeout ms> | jlife-sleep <ms> |
+  -- jlife <prepare|execute|contribute|commit|abort> <inst> <acct> <ok|no>
+  | ["jlife-reset", ms] =>
+    match ms.toNat? with
+    | some ms => ({ st with jlife := { timeout := ms } }, some "ok")
+    | none => bad st line
+  | ["jlife-sleep", ms] =>
+    match ms.toNat? with
+    | some ms => ({ st with jlife := Spec.Life.advance st.jlife ms }, some "ok")
+    | none => bad st line
+  | ["jlife", m, i, acct, acc] =>
+    let m? : Option Spec.Life.Msg := match m with
+      | "prepare" => some .prepare | "execute" => some .execute | "contribute" => some .contribute
+      | "commit" => some .commit | "abort" => some .abort | _ => none
+    match m?, i.toNat?, unhexStr acct with
+    | some m, some i, some acct =>
+      let r := Spec.Life.judge st.jlife m i acct (acc == "ok")
+      ({ st with jlife := r.1 }, some r.2)
+    | _, _, _ => bad st line
+  -- the signing root of (32-byte object root, 32-byte domain), for judges that verify signatures
+  | ["sroot", r, d] =>
+    match unhex r, unhex d with
+    | some r, some d => (st, some (match Ssz.signingRoot r d with | some x => hex x | none => "-"))
+    | _, _ => bad st line
   | ["jquorum", t, c1, c2] =>
     match t.toNat?, c1.toNat?, c2.toNat? with
     | some t, some c1, some c2 =>
@@ -435,6 +472,8 @@ def dstepCore (st : DState) (line : String) : DState × Option String :=
       | ["expired", cn] => some (.cert true false cn)
       | ["notyetvalid", cn] => some (.cert true false cn)
       | ["valid", cn] => some (.cert true true cn)
+      -- a valid leaf followed by certificates that were not verified: the leaf is the certificate
+      | ["chain", cns] => (cns.splitOn "+").head?.map (fun cn => .cert true true cn)
       | _ => none
     match cred with
     | none => bad st line
